@@ -20,6 +20,8 @@
 //     4c. `for k, v := range x.f` where f is a struct field declared as a map with an
 //     ordered key type iterates the keys in sorted order (vsched.SortedKeys), so
 //     that Go's random map iteration order is not a hidden source of divergence;
+//     for a map field with another key type (interfaces, pointers) the keys come in
+//     order of first sight (vsched.StableKeys);
 //     4d. time.AfterFunc -> vsched.AfterFunc: the callback goroutine gets its label when
 //     the timer is armed, so that callbacks firing at the same instant are told
 //     apart reproducibly;
